@@ -168,6 +168,20 @@ def run(ctx):
                   "another log with matching LSNs passes validation" % (adt.rsplit("::", 1)[-1], fld), site=adt)
 
     # ---- R4
+    # ---- R5 independent evidence: the per-segment digest that the projection compares with the manifest is computed from the
+    # bytes on disk.  Computed from the recovery report it is being compared WITH, the comparison is a tautology and frames
+    # that lost their commit marker (orphaned in the segment file) are no longer noticed.
+    rep.rule("C11.R5", "A7 the segment evidence compared with the manifest derives from reading the segment files, not from the recovery scan it is checked against")
+    ev = prog.fn(CW + "filesystem_wal_recovery_segment_evidence")
+    sd = ev.call_sites(r"causal_wal::segment_digest$")
+    rep.check(len(sd) >= 1, "C11.R5", "segment-evidence:anchor", "segment digests computed (%d site)" % len(sd), "filesystem_wal_recovery_segment_evidence no longer computes segment digests", site=ev.loc())
+    for b in sd:
+        ats = ev.origins().of_operand(ev.blocks[b]["t"]["args"][1], deep=True)
+        from_disk = any(a.kind == "call" and re.search(r"read_segment_file$|read_segment_bytes$|read_filesystem_segments$", a.key[0]) for a in ats)
+        from_report = any(steps_have(a, "RecoveryScanReport", "transactions") or steps_have(a, "WalRecoveredTransaction", "frames") for a in ats)
+        rep.check(from_disk and not from_report, "C11.R5", "segment-evidence:from-disk", "the digested frames are the frames read from the segment file",
+                  "the segment digest is computed from %s: comparing it with the manifest no longer says anything about the frames physically present in the segment" % (
+                      "the recovery report" if from_report else "something other than the segment file"), site=ev.loc(ev.block_line(b)))
     rs = prog.fn(CW + "read_segment_bytes")
     oks, errs = ok_return_blocks(rs)
     # the torn_tail flag is element 2 of the returned tuple
